@@ -194,7 +194,7 @@ def run(ctx):
     ctx.floor('RELEASE', 2)
 
     # ---- 5. rollback in add_node
-    an = prog.async_body(ENG + '::add_node')
+    an = prog.inl(ENG + '::add_node', keep=r'IPDiversityEnforcer|GeographicDiversityEnforcer|KademliaRoutingTable::')
     ctx.touch(an, len(an.calls()))
     adds = [c for c in an.calls() if c.callee == ENF + '::add_unified']
     rollback = [c.bb for c in an.calls() if c.callee in (ENF + '::remove_unified',)]
